@@ -179,6 +179,12 @@ func computeYear(lunar *Lunar) {
 			gExact++
 			zExact++
 		}
+	} else {
+		// 阴历年超前于阳历年（如公元15年12月30日为阴历16年），立春纪年仍属阳历年
+		g--
+		z--
+		gExact--
+		zExact--
 	}
 
 	if g < 0 {
